@@ -669,7 +669,7 @@ def oracle_random_mesh(ctx):
             if any(abs(a - b) > Fraction(1, 10 ** 9) * scale + Fraction(1, 10 ** 7) * abs(a)
                    for a, b in zip(lin, cen)):
                 problems.append('linear and centroid modes disagree on a simplex')
-            if abs(sum(lin) - hull) > Fraction(1, 10 ** 9) * hull:
+            if abs(sum(lin) - hull) > Fraction(1, 10 ** 8) * hull:
                 problems.append(f'sum of the elements {float(sum(lin))} != convex hull {float(hull)}')
             if r.get('default_metrics_raises'):
                 problems.append('calculate_element_metrics() raises on the generated mesh')
@@ -1284,12 +1284,19 @@ def main(ctx):
         'hand models of the polygon / polyhedron loops, functions.normalize, the id lookup and '
         'the result assembly (coq/C11/Model.v, Entry.v), pinned by the correspondence',
         'float -> rational conversion float.hex()/Fraction; comparison inside Coq over Q '
-        '(Check.close); Qsqrt = floor(sqrt(q) 2^60)/2^60',
+        '(Check.close); Qsqrt = floor(sqrt(q) 2^60)/2^60 (graded meshes: CheckRel.Qsqrt_rel, 62 significant bits)',
+        'translator /verif/translate/c11_glue.py (_validate_metric, _slot_answers, option tuples, '
+        'functions.normalize) and its validation against the methods; when the glue is outside its grammar the '
+        'reference semantics are used and notes.glue_translator says so (tie H for the glue)',
+        'hand model of the stored-result state machine coq/C11/Slot.v (step/session) and the pattern match of how '
+        'the entry points use the slot, pinned by the option-history stream',
     ]
     ctx.assumptions += [
         'floating-point rounding, float32 accumulators, LAPACK det and EPSILON clamping are '
         'modelled as exact real arithmetic (theorems over R); float literals denote their decimal value',
-        'fresh FEMData object per query (the memoised volume/area/metric slots belong to C19)',
+        'entry-point correspondence: fresh FEMData object per query; the stored area/volume/metric results are '
+        'modelled separately (Slot.v, C11_slot_history_*) and exercised by the option-history stream; '
+        'invalidation by mesh edits other than translation()/rotation() belongs to C19',
     ]
     # 1. translate
     tie_ok, model = True, None
